@@ -11,9 +11,10 @@ PROPS = {
                 claim="the tokenisers every rule goes through (_next_quote, splitquote) are proved lossless and quote-exact for all "
                       "inputs; Program.match is proved to account for every item of the input on every normal exit (after the repair of its fallback); SequenceBase.match "
                       "is proved to build one node per entry in order; the lexical content of the printed text is compared with the source on a program "
-                      "corpus (bounded); other per-rule match methods are not under contract",
+                      "corpus (bounded); the generic rule bases (match and tostr) and, among the rule-specific methods of Fortran2003.py, 63 tostr "
+                      "and 19 match(string) methods are proved to hand on / print every part of their text (the remaining rule-specific methods are not under contract)",
                 trusted=TRUSTED,
-                explanation="[P] tokenisers, label/name extraction, Program.match item accounting, SequenceBase.match; [B] lexical content of printed "
+                explanation="[P] tokenisers, label/name extraction, Program.match item accounting, rule bases, statement-level tostr / match(string) contracts (contracts/small_batch.py); [B] lexical content of printed "
                             "text vs source (bounded_tokens.py), layout independence of the reader items (bounded_layout.py)",
                 enum=["bounded_tokens.py", "bounded_layout.py --only C04", "bounded_harvest.py --only C02"],
                 witnesses=["c02_blanks_of_a_literal_in_a_function_prefix", "c02_generic_binding_without_blank_after_arrow", "c02_function_suffix_reordered", "c02_group_equal_to_the_content_of_an_earlier_group", "c02_tab_inside_character_literal_is_expanded", "c02_statement_after_leading_semicolon_is_lost", "c02_units_dropped_around_anonymous_main", "c02_char_selector_placeholder_leak", "c02_char_selector_kind_len_reordered",
